@@ -558,6 +558,91 @@ _MUTATING = {'append', 'extend', 'insert', 'pop', 'remove', 'clear', 'sort',
 _QUIET_SELF = ('self._log.', 'self._prof.', 'self._rep.', 'self._logger.')
 
 
+def package_facts(prog):
+    """(names of @property methods; attribute -> names of the methods other
+    than __init__ which assign `self.<attribute>`; method name -> names of the
+    self-methods it calls) over the whole package, by name"""
+    props, rebound, calls = set(), {}, {}
+    for m in prog.modules.values():
+        for x in ast.walk(m.tree):
+            if isinstance(x, (ast.FunctionDef, ast.AsyncFunctionDef)):
+                if any(dotted(d).split('.')[-1] in ('property', 'setter',
+                                                    'cached_property')
+                       for d in x.decorator_list):
+                    props.add(x.name)
+                cs = calls.setdefault(x.name, set())
+                aug = {id(y.target) for y in ast.walk(x)
+                       if isinstance(y, ast.AugAssign)}
+                for y in ast.walk(x):
+                    if isinstance(y, ast.Call) and isinstance(
+                            y.func, ast.Attribute) and isinstance(
+                            y.func.value, ast.Name) and \
+                            y.func.value.id == 'self':
+                        cs.add(y.func.attr)
+                    # `self.x += [..]` extends a container in place
+                    if x.name != '__init__' and \
+                            isinstance(y, ast.Attribute) and isinstance(
+                            y.ctx, (ast.Store, ast.Del)) and \
+                            isinstance(y.value, ast.Name) and \
+                            y.value.id == 'self' and id(y) not in aug:
+                        rebound.setdefault(y.attr, set()).add(x.name)
+    return props, rebound, calls
+
+
+def _may_rebind(facts, method, attr):
+    props, rebound, calls = facts
+    targets = rebound.get(attr, set())
+    if not targets:
+        return False
+    seen, todo = set(), [method]
+    while todo:
+        m = todo.pop()
+        if m in seen:
+            continue
+        seen.add(m)
+        if m in targets:
+            return True
+        todo.extend(calls.get(m, ()))
+    return False
+
+
+def _container_alias(fn, name, v, facts):
+    """`name = self.<attr>` where every use of `name` goes *through* the
+    object (subscript / attribute base, loop iterable, membership) and no
+    self-method called anywhere in this function can (transitively, by name)
+    re-assign the attribute: the alias and the attribute path denote the same
+    object at every use.  (Re-binding by another thread is not considered;
+    the package re-binds container attributes only in start-up methods.)"""
+    if facts is None or not isinstance(v, ast.Attribute) or not (
+            isinstance(v.value, ast.Name) and v.value.id == 'self'):
+        return False
+    props = facts[0]
+    if v.attr in props:
+        return False
+    parents = {}
+    for x in ast.walk(fn):
+        for ch in ast.iter_child_nodes(x):
+            parents[id(ch)] = x
+    for x in ast.walk(fn):
+        if isinstance(x, ast.Name) and x.id == name and \
+                isinstance(x.ctx, ast.Load):
+            p = parents.get(id(x))
+            if isinstance(p, (ast.Subscript, ast.Attribute)) and p.value is x:
+                continue
+            if isinstance(p, (ast.For, ast.comprehension)) and p.iter is x:
+                continue
+            if isinstance(p, ast.Compare) and len(p.ops) == 1 and isinstance(
+                    p.ops[0], (ast.In, ast.NotIn)) and p.comparators[0] is x:
+                continue
+            return False
+        if isinstance(x, ast.Call) and isinstance(x.func, ast.Attribute) and \
+                isinstance(x.func.value, ast.Name) and \
+                x.func.value.id == 'self' and \
+                _may_rebind(facts, x.func.attr, v.attr):
+            return False
+    return True
+
+
 def _stale_between(fn, def_stmt, name, v):
     """would the value of expression v (sampled at def_stmt into `name`) differ
     from v evaluated at a use of `name`?  Conservative (True = may be stale):
@@ -566,7 +651,30 @@ def _stale_between(fn, def_stmt, name, v):
     definition and a use (pre-order) there is a store through, a mutating
     call on, or a call receiving one of the names v reads (any self-method
     call when v reads through self)."""
-    content = any(isinstance(x, (ast.Attribute, ast.Subscript, ast.Call))
+    # names bound in the function (parameters, locals); anything else is a
+    # module-level name (imported module, constant): `rpc.BUSY` is a constant
+    local = {a.arg for a in fn.args.args + fn.args.kwonlyargs +
+             fn.args.posonlyargs}
+    if fn.args.vararg:
+        local.add(fn.args.vararg.arg)
+    if fn.args.kwarg:
+        local.add(fn.args.kwarg.arg)
+    for x in ast.walk(fn):
+        if isinstance(x, ast.Name) and isinstance(x.ctx, (ast.Store, ast.Del)):
+            local.add(x.id)
+
+    def _const_path(x):
+        r = x
+        while isinstance(r, ast.Attribute):
+            r = r.value
+        return isinstance(r, ast.Name) and r.id not in local
+    skip = set()
+    for x in ast.walk(v):
+        if isinstance(x, ast.Attribute) and _const_path(x):
+            for y in ast.walk(x):
+                skip.add(id(y))
+    content = any((isinstance(x, (ast.Attribute, ast.Subscript, ast.Call))
+                   and id(x) not in skip)
                   or (isinstance(x, ast.Compare) and any(
                       isinstance(o, (ast.In, ast.NotIn)) for o in x.ops))
                   for x in ast.walk(v))
@@ -636,7 +744,7 @@ def _stale_between(fn, def_stmt, name, v):
     return False
 
 
-def propagate(fn):
+def propagate(fn, facts=None):
     """substitute single-assignment locals holding a pure test expression or
     a `self.<attr>` path into their uses"""
     assigns = {}
@@ -674,7 +782,9 @@ def propagate(fn):
             ok = unparse(v) not in attr_stores and not any(
                 a.startswith(unparse(v) + '.') or unparse(v).startswith(a + '.')
                 for a in attr_stores)
-        if ok and _stale_between(fn, lst[0], name, v):
+        if ok and _self_path(v) and _container_alias(fn, name, v, facts):
+            pass        # reference to a container attribute never rebound
+        elif ok and _stale_between(fn, lst[0], name, v):
             ok = False
         if ok:
             mapping[name] = v
@@ -967,8 +1077,9 @@ def normalized_program(prog, desugar=True):
                 any_change = True
         if not any_change:
             break
+    facts = package_facts(p2)
     for f in all_funcs():
-        if propagate(f.node):
+        if propagate(f.node, facts):
             stats['propagated_functions'] += 1
     stats['inlined_calls'] = inl.count
     # new helpers whose every call site was inlined are dead: drop them, so
